@@ -13,7 +13,7 @@ package btp
 //@ smt int lemma (define-fun-rec ctxs ((D (Array Int Iface)) (H (Array Int Bool)) (k Int)) Int (ite (<= k 0) 0 (+ (ctxs D H (- k 1)) (ite (select H (ntd_id (select D (- k 1)))) 1 0))))
 //@ smt int func (declare-fun ctxs ((Array Int Iface) (Array Int Bool) Int) Int)
 //@ lemma ctxs_zero int : forall D ifacearr, H boolarr :: {ctxs(D, H, 0)} ctxs(D, H, 0) == 0
-//@ lemma ctxs_step int : forall D ifacearr, H boolarr, k int :: {ctxs(D, H, k + 1)} k >= 0 ==> ctxs(D, H, k + 1) == ctxs(D, H, k) + (H[ntd_id(D[k])] ? 1 : 0)
+//@ lemma ctxs_step int : forall D ifacearr, H boolarr, k int :: {ctxs(D, H, k)} k > 0 ==> ctxs(D, H, k) == ctxs(D, H, k - 1) + (H[ntd_id(D[k - 1])] ? 1 : 0)
 
 //@ spec digestList(bd) = sliceof(module.NetworkTypeDigest, btd_digests(bd))
 //@ spec digestsOf(bd) = arr(digestList(bd))
